@@ -33,15 +33,17 @@ import (
 )
 
 type nodeStats struct {
-	Ops, Genuine, Mutated, Accepted, Rejected, Panics, Execs int
-	MutationHist                                           map[string]int
-	OutcomeHist                                            map[string]int
-	Monitors                                               []string
-	Samples                                                []string
-	Notes                                                  []string
-	Scenarios                                              int
+	Ops, Genuine, Mutated, Accepted, Rejected, Panics, Execs                           int
+	Duplicates                                                                         int
+	DuplicateHist                                                                      map[string]int
+	MutationHist                                                                       map[string]int
+	OutcomeHist                                                                        map[string]int
+	Monitors                                                                           []string
+	Samples                                                                            []string
+	Notes                                                                              []string
+	Scenarios                                                                          int
 	C08Compared, C08Resets, TwoRoundScenarios, C08InDealsWindow, ReinitProbes, Reinits int
-	CancelledRounds                                        int
+	CancelledRounds                                                                    int
 }
 
 func tsTok(t time.Time) string {
@@ -275,9 +277,7 @@ func (r *nodeRun) emit(op, ob string) {
 }
 
 func (r *nodeRun) mon(s string) {
-	if len(r.st.Monitors) < 60 {
-		r.st.Monitors = append(r.st.Monitors, s)
-	}
+	addMonitor(&r.st.Monitors, s)
 }
 
 // registeredKeys returns the communication keys registered in the observer's dump of the round.
@@ -627,7 +627,7 @@ func (r *nodeRun) scenario(outDir string, n, t int, twoRounds bool) {
 						apply(mu) // before the genuine message
 					}
 				}
-				r.feed(c, obs, m, "genuine")
+				gen := r.feed(c, obs, m, "genuine")
 				r.st.Genuine++
 				for i, mu := range muts {
 					if i >= half && i < perMsg {
@@ -635,9 +635,17 @@ func (r *nodeRun) scenario(outDir string, n, t int, twoRounds bool) {
 					}
 				}
 				// exact duplicate of the genuine message (C13/C08: re-applying is a rejection or idempotent)
-				if r.rng.Intn(4) == 0 {
+				if r.rng.Intn(2) == 0 {
 					res := r.feed(c, obs, m, "duplicate")
-					_ = res
+					r.st.Duplicates++
+					// C13 (node_reapply): whatever was delivered in between, a message delivered again is rejected, or accepted
+					// without changing anything
+					if gen.outcome == "ok" && res.outcome == "ok" && res.before != res.after {
+						r.mon(fmt.Sprintf("C13 reapply_safe: %s from %s, accepted a second time, changed the node state", m.Event, m.SenderAddr))
+					} else if res.outcome == "panic" {
+						r.mon(fmt.Sprintf("C13 reapply_safe: %s from %s, delivered a second time, crashed the node", m.Event, m.SenderAddr))
+					}
+					r.st.DuplicateHist[res.outcome]++
 				}
 			}
 			consumed = m.Offset + 1
@@ -782,7 +790,7 @@ func runNodeDiff(outDir string, seed int64, tier string) {
 	defer restore()
 	fo, _ := os.Create(filepath.Join(outDir, "ops.txt"))
 	fb, _ := os.Create(filepath.Join(outDir, "go_obs.txt"))
-	r := &nodeRun{st: &nodeStats{MutationHist: map[string]int{}, OutcomeHist: map[string]int{}}, ops: bufio.NewWriterSize(fo, 1<<20),
+	r := &nodeRun{st: &nodeStats{MutationHist: map[string]int{}, OutcomeHist: map[string]int{}, DuplicateHist: map[string]int{}}, ops: bufio.NewWriterSize(fo, 1<<20),
 		obs: bufio.NewWriterSize(fb, 1<<20), rng: rand.New(rand.NewSource(seed)), tier: tier}
 	cfgs := [][2]int{{3, 2}, {2, 2}}
 	if tier == "thorough" {
@@ -800,7 +808,6 @@ func runNodeDiff(outDir string, seed int64, tier string) {
 	fmt.Printf("nodediff: ops=%d genuine=%d mutated=%d accepted=%d rejected=%d panics=%d monitors=%d\n", r.st.Ops, r.st.Genuine, r.st.Mutated, r.st.Accepted, r.st.Rejected, r.st.Panics, len(r.st.Monitors))
 	_ = bytes.Equal
 }
-
 
 // reinitProbes: crafted re-initialisation messages from a stranger. A reinit message may create the round it names
 // (like an opening proposal, it is confirmed out of band); it must not touch any round that exists. The node is rolled
@@ -842,7 +849,6 @@ func (r *nodeRun) reinitProbes(c *cluster, obs *vnode, round string) {
 	probe("fresh id, inner messages of an existing round", "fresh-round-x", "fresh-round-x")
 	probe("envelope names an existing round, dkg_id fresh", round, "fresh-round-y")
 }
-
 
 // reinitObserved: the observed node, with an empty state database again, is re-initialised from a dump of the board by
 // the real procedure (GenerateReDKGMessage, in every other scenario GetAdaptedReDKG on a dump stripped of its
